@@ -242,6 +242,7 @@ crate::harnesses! {
     /// partial vs complete tokenizer, flags LTC: strings len <= 5 over {0 7 _ . e x}.
     /// @prop C11 C13
     /// @tier thorough
+    /// @mem 6
     /// @feat format radix_format
     /// @bound format F_LTC; input length <= 5 over {0 7 _ . e x}
     /// @fn lexical-parse-float::parse::{parse_partial_number, parse_complete_number}
@@ -263,6 +264,7 @@ crate::harnesses! {
     /// partial vs complete tokenizer, flags ITC: strings len <= 5 over {0 7 _ . e x}.
     /// @prop C11 C13
     /// @tier thorough
+    /// @mem 6
     /// @feat format radix_format
     /// @bound format F_ITC; input length <= 5 over {0 7 _ . e x}
     /// @fn lexical-parse-float::parse::{parse_partial_number, parse_complete_number}
@@ -284,6 +286,7 @@ crate::harnesses! {
     /// partial vs complete tokenizer, flags ILC: strings len <= 5 over {0 7 _ . e x}.
     /// @prop C11 C13
     /// @tier thorough
+    /// @mem 6
     /// @feat format radix_format
     /// @bound format F_ILC; input length <= 5 over {0 7 _ . e x}
     /// @fn lexical-parse-float::parse::{parse_partial_number, parse_complete_number}
@@ -305,6 +308,7 @@ crate::harnesses! {
     /// partial vs complete tokenizer, flags ILTC: strings len <= 5 over {0 7 _ . e x}.
     /// @prop C11 C13
     /// @tier thorough
+    /// @mem 6
     /// @feat format radix_format
     /// @bound format F_ALL; input length <= 5 over {0 7 _ . e x}
     /// @fn lexical-parse-float::parse::{parse_partial_number, parse_complete_number}
@@ -326,6 +330,7 @@ crate::harnesses! {
     /// partial vs complete tokenizer, flags ILT: strings len <= 5 over {0 7 _ . e x}.
     /// @prop C11 C13
     /// @tier thorough
+    /// @mem 6
     /// @feat format radix_format
     /// @bound format F_ILT; input length <= 5 over {0 7 _ . e x}
     /// @fn lexical-parse-float::parse::{parse_partial_number, parse_complete_number}
@@ -347,6 +352,7 @@ crate::harnesses! {
     /// partial vs complete tokenizer, flags LT: strings len <= 5 over {0 7 _ . e x}.
     /// @prop C11 C13
     /// @tier thorough
+    /// @mem 6
     /// @feat format radix_format
     /// @bound format F_LT; input length <= 5 over {0 7 _ . e x}
     /// @fn lexical-parse-float::parse::{parse_partial_number, parse_complete_number}
@@ -367,6 +373,7 @@ crate::harnesses! {
     /// separator-position grammar, flags I (all components): strings len <= 5 over {0 7 _ . e}.
     /// @prop C13
     /// @tier thorough
+    /// @mem 9
     /// @feat format radix_format
     /// @bound format F_I; input length <= 5 over {0 7 _ . e}
     /// @fn lexical-util::skip::is_i! (@first/@internal) via peek_1/peek_n and lexical-parse-float::parse::parse_number
@@ -386,6 +393,7 @@ crate::harnesses! {
     /// separator-position grammar, flags IC (all components): strings len <= 5 over {0 7 _ . e}.
     /// @prop C13
     /// @tier thorough
+    /// @mem 9
     /// @feat format radix_format
     /// @bound format F_IC; input length <= 5 over {0 7 _ . e}
     /// @fn lexical-util::skip::is_ic! (@first/@internal) via peek_1/peek_n and lexical-parse-float::parse::parse_number
@@ -405,6 +413,7 @@ crate::harnesses! {
     /// separator-position grammar, flags L (all components): strings len <= 5 over {0 7 _ . e}.
     /// @prop C13
     /// @tier thorough
+    /// @mem 9
     /// @feat format radix_format
     /// @bound format F_L; input length <= 5 over {0 7 _ . e}
     /// @fn lexical-util::skip::is_l! (@first/@internal) via peek_1/peek_n and lexical-parse-float::parse::parse_number
@@ -424,6 +433,7 @@ crate::harnesses! {
     /// separator-position grammar, flags LC (all components): strings len <= 5 over {0 7 _ . e}.
     /// @prop C13
     /// @tier thorough
+    /// @mem 9
     /// @feat format radix_format
     /// @bound format F_LC; input length <= 5 over {0 7 _ . e}
     /// @fn lexical-util::skip::is_lc! (@first/@internal) via peek_1/peek_n and lexical-parse-float::parse::parse_number
@@ -443,6 +453,7 @@ crate::harnesses! {
     /// separator-position grammar, flags T (all components): strings len <= 5 over {0 7 _ . e}.
     /// @prop C13
     /// @tier thorough
+    /// @mem 9
     /// @feat format radix_format
     /// @bound format F_T; input length <= 5 over {0 7 _ . e}
     /// @fn lexical-util::skip::is_t! (@first/@internal) via peek_1/peek_n and lexical-parse-float::parse::parse_number
@@ -462,6 +473,7 @@ crate::harnesses! {
     /// separator-position grammar, flags TC (all components): strings len <= 5 over {0 7 _ . e}.
     /// @prop C13
     /// @tier thorough
+    /// @mem 9
     /// @feat format radix_format
     /// @bound format F_TC; input length <= 5 over {0 7 _ . e}
     /// @fn lexical-util::skip::is_tc! (@first/@internal) via peek_1/peek_n and lexical-parse-float::parse::parse_number
@@ -481,6 +493,7 @@ crate::harnesses! {
     /// separator-position grammar, flags IL (all components): strings len <= 5 over {0 7 _ . e}.
     /// @prop C13
     /// @tier thorough
+    /// @mem 9
     /// @feat format radix_format
     /// @bound format F_IL; input length <= 5 over {0 7 _ . e}
     /// @fn lexical-util::skip::is_il! (@first/@internal) via peek_1/peek_n and lexical-parse-float::parse::parse_number
@@ -500,6 +513,7 @@ crate::harnesses! {
     /// separator-position grammar, flags ILC (all components): strings len <= 5 over {0 7 _ . e}.
     /// @prop C13
     /// @tier thorough
+    /// @mem 9
     /// @feat format radix_format
     /// @bound format F_ILC; input length <= 5 over {0 7 _ . e}
     /// @fn lexical-util::skip::is_ilc! (@first/@internal) via peek_1/peek_n and lexical-parse-float::parse::parse_number
@@ -519,6 +533,7 @@ crate::harnesses! {
     /// separator-position grammar, flags IT (all components): strings len <= 5 over {0 7 _ . e}.
     /// @prop C13
     /// @tier thorough
+    /// @mem 9
     /// @feat format radix_format
     /// @bound format F_IT; input length <= 5 over {0 7 _ . e}
     /// @fn lexical-util::skip::is_it! (@first/@internal) via peek_1/peek_n and lexical-parse-float::parse::parse_number
@@ -538,6 +553,7 @@ crate::harnesses! {
     /// separator-position grammar, flags ITC (all components): strings len <= 5 over {0 7 _ . e}.
     /// @prop C13
     /// @tier thorough
+    /// @mem 9
     /// @feat format radix_format
     /// @bound format F_ITC; input length <= 5 over {0 7 _ . e}
     /// @fn lexical-util::skip::is_itc! (@first/@internal) via peek_1/peek_n and lexical-parse-float::parse::parse_number
@@ -557,6 +573,7 @@ crate::harnesses! {
     /// separator-position grammar, flags LT (all components): strings len <= 5 over {0 7 _ . e}.
     /// @prop C13
     /// @tier thorough
+    /// @mem 9
     /// @feat format radix_format
     /// @bound format F_LT; input length <= 5 over {0 7 _ . e}
     /// @fn lexical-util::skip::is_lt! (@first/@internal) via peek_1/peek_n and lexical-parse-float::parse::parse_number
@@ -576,6 +593,7 @@ crate::harnesses! {
     /// separator-position grammar, flags LTC (all components): strings len <= 5 over {0 7 _ . e}.
     /// @prop C13
     /// @tier thorough
+    /// @mem 9
     /// @feat format radix_format
     /// @bound format F_LTC; input length <= 5 over {0 7 _ . e}
     /// @fn lexical-util::skip::is_ltc! (@first/@internal) via peek_1/peek_n and lexical-parse-float::parse::parse_number
@@ -595,6 +613,7 @@ crate::harnesses! {
     /// separator-position grammar, flags ILT (all components): strings len <= 5 over {0 7 _ . e}.
     /// @prop C13
     /// @tier thorough
+    /// @mem 9
     /// @feat format radix_format
     /// @bound format F_ILT; input length <= 5 over {0 7 _ . e}
     /// @fn lexical-util::skip::is_ilt! (@first/@internal) via peek_1/peek_n and lexical-parse-float::parse::parse_number
@@ -614,6 +633,7 @@ crate::harnesses! {
     /// separator-position grammar, flags ILTC (all components): strings len <= 5 over {0 7 _ . e}.
     /// @prop C13
     /// @tier thorough
+    /// @mem 9
     /// @feat format radix_format
     /// @bound format F_ALL; input length <= 5 over {0 7 _ . e}
     /// @fn lexical-util::skip::is_iltc! (@first/@internal) via peek_1/peek_n and lexical-parse-float::parse::parse_number
